@@ -22,6 +22,8 @@ inductive SOp
   | destroy
   /-- `Thread::getCurrentThreadId()` / `Thread::yield()`: no call of the simulated POSIX layer, no model state; they return -/
   | tid | yield
+  /-- `Thread::sleep(ms)`: a step of the `Sleep` system (virtual clock) -/
+  | sleep (ms : Nat)
 deriving DecidableEq, Repr
 
 inductive Kind | normal | spur | eintr | timeout | tick
@@ -33,6 +35,8 @@ inductive PrimSt
 structure World where
   prim : PrimSt
   thr : Thr.St
+  /-- Thread::sleep; its clock runs in step with the primitive's -/
+  slp : Sleep.St
   progs : Array (Nat × Array SOp)
   pos : Array Nat
   quantum : Nat
@@ -79,7 +83,7 @@ def opValid (prim : String) (op : SOp) : Bool :=
   match op with
   | .start _ | .mstart _ | .join _ | .dtor _ | .xstart _ _ => true
   | .destroy => prim == "sig" || prim == "mon"
-  | .tid | .yield => true
+  | .tid | .yield | .sleep _ => true
   | .lock | .try_ _ | .unlock => prim == "mtx" || prim == "mon"
   | .signal | .trywait => prim == "sem"
   | .wait | .twait _ => prim == "sem" || prim == "sig" || prim == "mon"
@@ -148,6 +152,8 @@ def World.alts (w : World) (t : Tid) : List (Nat × Kind) :=
     if w.thr.pc t != .idle then
       -- alternative 1 of a pending pthread_create = the call fails (budgeted; never taken by the default policy)
       [(0, Kind.normal), (1, Kind.eintr)].filter fun (a, _) => (Thr.step w.val w.thr t (.api (.run a))).isSome
+    else if (w.slp.pc t).isSome then
+      if (Sleep.step w.slp t (.run 0)).isSome then [(0, Kind.normal)] else []
     else
       (List.range (primMaxAlt w.prim)).filterMap fun a =>
         if (primRun w.prim t a).isSome then some (a, primKind w.prim t a) else none
@@ -155,7 +161,8 @@ def World.alts (w : World) (t : Tid) : List (Nat × Kind) :=
 
 def World.cands (w : World) : List (Nat × Nat × Kind) :=
   let th := (List.range w.n).flatMap fun t => (w.alts t).map fun (a, k) => (t, a, k)
-  let tick := (List.range w.n).any fun t => (w.thr.status t).isRunning && w.thr.pc t == .idle && primWantsTick w.prim t
+  let tick := (List.range w.n).any fun t => (w.thr.status t).isRunning && w.thr.pc t == .idle &&
+    (primWantsTick w.prim t || ((w.slp.pc t).isSome && (Sleep.step w.slp t (.run 0)).isNone))
   if tick then th ++ [(99, 0, .tick)] else th
 
 /-- thread t has just returned from a call or begun to run: begin its next call(s) up to the next POSIX
@@ -218,6 +225,7 @@ def advance (fuel : Nat) (w : World) (t : Tid) (evs : List String) : Option (Wor
       | some .destroy =>   -- no POSIX scheduling point; object lifetime is not part of the model
         advance fuel { w with pos := w.pos.set! t (k + 1) } t (evs ++ [s!"{k}=v"])
       | some .tid => advance fuel { w with pos := w.pos.set! t (k + 1) } t (evs ++ [s!"{k}=1"])
+      | some (.sleep ms) => (Sleep.step w.slp t (.call ms)).map fun sl => ({ w with slp := sl }, evs)
       | some .yield => advance fuel { w with pos := w.pos.set! t (k + 1) } t (evs ++ [s!"{k}=v"])
       | some op => (primCall w.prim t op).map fun p => ({ w with prim := p }, evs)
 
@@ -233,7 +241,8 @@ def returned (w : World) (t : Tid) (v : Val) : Option (World × List String) :=
     advance (ops.size + 2) { w with pos := w.pos.set! t (k + 1 + skip) } t [s!"{k}={valStr v}"]
 
 def applyChoice (w : World) (t a : Nat) : Option (World × List String) :=
-  if t = 99 then some ({ w with prim := primTick w.prim w.quantum }, [])
+  if t = 99 then
+    some ({ w with prim := primTick w.prim w.quantum, slp := (Sleep.step w.slp 0 (.tick w.quantum)).getD w.slp }, [])
   else
     match w.thr.status t with
     | .created _ =>
@@ -244,6 +253,8 @@ def applyChoice (w : World) (t a : Nat) : Option (World × List String) :=
           match th.ret t with
           | some v => returned { w with thr := th } t v
           | none => none
+      else if (w.slp.pc t).isSome then
+        (Sleep.step w.slp t (.run a)).bind fun sl => returned { w with slp := sl } t .unit
       else
         (primRun w.prim t a).bind fun p =>
           if primIdle p t then
